@@ -175,6 +175,19 @@ Definition check_ls (k : case_ls) : bool :=
     (bt_search vec addQ scalQ (oval (ls_obj k)) (ls_tau k) (ls_disc k) (ls_mni k) (ls_est k) (ls_alpha k)
                (ls_x k) (ls_d k) (ls_dd k)).
 
+(* two consecutive calls of the SAME line-search object: the second starts from the alpha the
+   first one stored (`self.alpha = |alpha|`) when estimate_step is set *)
+Record case_ls2 := { l2_first : case_ls; l2_x : vec; l2_d : vec; l2_dd : Q; l2_res : ls_res }.
+Definition check_ls2 (k : case_ls2) : bool :=
+  let c := l2_first k in
+  let run st x d dd := bt_search vec addQ scalQ (oval (ls_obj c)) (ls_tau c) (ls_disc c) (ls_mni c) (ls_est c) st x d dd in
+  let r1 := run (ls_alpha c) (ls_x c) (ls_d c) (ls_dd c) in
+  ls_match (ls_res_ c) r1 &&
+  match r1 with
+  | LsOk a => ls_match (l2_res k) (run (Qabs a) (l2_x k) (l2_d k) (l2_dd k))
+  | _ => true
+  end.
+
 Record case_sd := { sd_obj : objective; sd_tau : Q; sd_disc : Q; sd_mni : nat; sd_est : bool; sd_alpha : Q;
                     sd_tol : Q; sd_maxiter : nat; sd_x0 : vec; sd_trace : list vec; sd_err : option ls_res }.
 Definition check_sd (k : case_sd) : bool :=
@@ -191,10 +204,10 @@ Definition check_sd (k : case_sd) : bool :=
 Inductive case :=
 | CLin (k : case_lin) | CKz (k : case_kz) | CPm (k : case_pm)
 | CPdhg (k : case_pdhg) | CAdmm (k : case_admm) | CPg (k : case_pg) | CFb (k : case_fb) | CDr (k : case_dr)
-| CLs (k : case_ls) | CSd (k : case_sd).
+| CLs (k : case_ls) | CLs2 (k : case_ls2) | CSd (k : case_sd).
 Definition check (c : case) : bool :=
   match c with
   | CLin k => check_lin k | CKz k => check_kz k | CPm k => check_pm k
   | CPdhg k => check_pdhg k | CAdmm k => check_admm k | CPg k => check_pg k
-  | CFb k => check_fb k | CDr k => check_dr k | CLs k => check_ls k | CSd k => check_sd k
+  | CFb k => check_fb k | CDr k => check_dr k | CLs k => check_ls k | CLs2 k => check_ls2 k | CSd k => check_sd k
   end.
